@@ -49,8 +49,30 @@ def bodies(rng, st, shebangs):
     return out
 
 
-def count_blocks(text):
-    return text.count("SPDX-License-Identifier")
+CONTRIBUTORS = ["Daniel Brown", "Carol", "Michael", "Example Ltd.", "IBM", "see https://example.com/", "Dash --", "Semi;", "Fortran c",
+                "Bang!", "Percent %", "Quote '", "Ann Contributor", "Rem REM", "dots ..", "Hash #", "Lisp ;;;", "Star *", "x dnl"]
+
+
+def count_blocks(text, args):
+    """Number of header blocks: occurrences of the first requested tag line's marker."""
+    if "-l" in args:
+        return text.count("SPDX-License-Identifier")
+    if "-c" in args:
+        holder = args[args.index("-c") + 1]
+        return text.count(holder)
+    if "--contributor" in args:
+        return text.count("SPDX-FileContributor: " + args[args.index("--contributor") + 1])
+    return 1
+
+
+def mirror_tail(t, opts, styles):
+    """A contributor whose tail equals the mirrored comment marker of the line it is written on (C02's known mechanism)."""
+    st = styles.get((t or {}).get("short"))
+    if not st:
+        return False
+    markers = {m.strip() for m in (st["single"], st["multi"][1]) if m and m.strip()}
+    vals = [opts[i + 1] for i, a in enumerate(opts[:-1]) if a == "--contributor"]
+    return any(v.endswith(m[::-1]) for v in vals for m in markers)
 
 
 def classify(t, mode, opts):
@@ -85,14 +107,17 @@ def double_run(res, ctx, root, fname, body, args_extra, t, mode, label, rng, n_r
         states.append((a, b))
     res.n += 1
     if states[1] != states[0]:
-        res.violation(classify(t, mode, args_extra), f"{label}: second identical run changed the file",
+        key = classify(t, mode, args_extra)
+        if mirror_tail(t, args_extra, ctx.state["styles"]) and len(states[1][0] if states[1][1] is None else states[1][1]) > len(states[0][0] if states[0][1] is None else states[0][1]):
+            key = "contributor-ending-in-mirrored-comment-marker-duplicated-on-rerun"
+        res.violation(key, f"{label}: second identical run changed the file",
                       args=args[4:-1], body=body, after1=states[0][0].decode("utf-8", "replace")[:600],
                       after2=states[1][0].decode("utf-8", "replace")[:600])
         return
     last = states[-1]
     text = (last[1] if last[1] is not None else last[0]).decode("utf-8", "replace")
-    if count_blocks(text) != 1:
-        res.violation(classify(t, mode, args_extra) + ":blocks", f"{label}: {count_blocks(text)} licence tags after {n_runs} runs (one requested)",
+    if count_blocks(text, args_extra) != 1:
+        res.violation(classify(t, mode, args_extra) + ":blocks", f"{label}: {count_blocks(text, args_extra)} copies of the requested tag after {n_runs} runs (one requested)",
                       args=args[4:-1], text=text[:600])
     if body or args_extra[4:]:
         res.sigs.add(short_hash(fname, mode, args_extra, body))
@@ -124,7 +149,19 @@ def run_case(case, ctx):
                     for bname, body in chosen:
                         extra = ["-c", "Jane Doe", "-l", "MIT", "--year", "2020"]
                         r = rng.random()
-                        if case["rep"] > 0 or bname == "code":
+                        if rng.random() < 0.25:
+                            # one kind of information only, non-SPDX prefixes, contributors with every kind of ending
+                            k2 = rng.random()
+                            if k2 < 0.4:
+                                extra = ["-c", rng.choice(["Jane Doe", "ACME, Inc."]), "--year", "2020", "--copyright-prefix",
+                                         rng.choice(["string", "string-c", "string-symbol", "symbol", "spdx", "spdx-symbol"])]
+                            elif k2 < 0.6:
+                                extra = ["-l", rng.choice(["MIT", "GPL-3.0-or-later OR MIT"])]
+                            elif k2 < 0.8:
+                                extra = ["--contributor", rng.choice(CONTRIBUTORS)]
+                            else:
+                                extra += ["--contributor", rng.choice(CONTRIBUTORS), "--contributor", rng.choice(CONTRIBUTORS)]
+                        elif case["rep"] > 0 or bname == "code":
                             if r < 0.15:
                                 extra += ["--contributor", "Ann Contributor"]
                             elif r < 0.3:
